@@ -40,6 +40,10 @@ search:         oracles written from the property text, independent of the Coq m
                     atoms; Al-Mg-Si, five stoichiometric phases with 2.8 ... 19 atoms, multicomponent backend), and a
                     kawin-free reference: tangent-plane distance to the compound from pycalphad's plain models.
                 (3) is sampling only (level: exploration) - pycalphad is not modelled.
+                    Calling conventions (sample_conventions): the same entry points with g / x / T as scalars, lists, tuples,
+                    int and float arrays, 0-d arrays, temperature arrays with equal / separated / nearly equal entries,
+                    argument arrays unchanged and re-used, histories on one object, two objects interleaved; a run whose
+                    display names differ from the phase names against its twin.
                 (4) ExtraGibbsModel (the precipitate model carrying GE): GM and G of the real symbolic models of nine
                     phases evaluated at random points against extra_gm / extra_g of the Coq model, and against
                     'GE raises the energy per mole of atoms by GE in both properties'.
@@ -563,6 +567,10 @@ def make_binary_model(cfg, therm):
             m.setStrainEnergy(se, phase=p)
         if 'rmin' in cfg:
             m.precipitateParameters[i].Rmin = cfg['rmin']
+    if cfg.get('display_names'):
+        # the name shown to the user differs from the phase name of the database / backend
+        for i, pp in enumerate(m.precipitateParameters):
+            pp.name = 'precipitate no. %d' % (i + 1)
     m.setNucleationDensity(grainSize=1, dislocationDensity=1e15)
     if cfg.get('constraints'):
         m.setConstraints(**cfg['constraints'])
@@ -923,6 +931,10 @@ def quick_configs():
         {'name': 'regular-heat-cool', 'backend': 'regular', 'off': 0.0, 'T': ([0, 0.002, 0.006, 0.012, 1], [700, 700, 740, 690, 690]), 'constraints': {'maxTempChange': 0.0}, 'tf': 70.0, 'maxsteps': 1500},
         {'name': 'alzr-quench', 'backend': 'alzr', 'T': ([0, 0.02 / 3600, 0.021 / 3600, 1], [773.15, 773.15, 673.15, 673.15]), 'constraints': {'maxTempChange': 0.0}, 'tf': 0.1, 'maxsteps': 400},
         {'name': 'alzr-heat-hold', 'backend': 'alzr', 'T': ([0, 1.0 / 3600, 9.0 / 3600, 1], [715.15, 715.15, 723.15, 723.15]), 'constraints': {'maxTempChange': 0.0}, 'tf': 20.0, 'maxsteps': 400},
+        # the same two-phase run with display names different from the phase names: must be the same run (twin_of)
+        {'name': 'dilute-two-phases', 'backend': 'dilute', 'off': 1.0, 'phases': ['B1', 'B3'], 'gammas': [0.15, 0.16], 'tf': 20.0, 'maxsteps': 500},
+        {'name': 'dilute-two-phases-display-names', 'backend': 'dilute', 'off': 1.0, 'phases': ['B1', 'B3'], 'gammas': [0.15, 0.16], 'tf': 20.0, 'maxsteps': 500,
+         'display_names': True, 'twin_of': 'dilute-two-phases'},
         {'name': 'dilute-two-phases-rk4', 'backend': 'dilute', 'off': 1.0, 'phases': ['B1', 'B3'], 'gammas': [0.15, 0.16], 'iterator': 'rk4', 'tf': 5.0, 'maxsteps': 500},
         {'name': 'ternary', 'backend': 'ternary', 'tf': 2e3, 'maxsteps': 1200},
         # several precipitate phases on the multicomponent path, each with its own interfacial energy, molar volume, shape and strain
@@ -1051,6 +1063,177 @@ def sample_backend_multi(ctx, quick, plan=None):
                         hits.append(('methods_agree', SITE_TH, 'value ' + meth, dict(case, tangent=dd, other=v2),
                                      'Al-Mg-Si %s x=%r T=%g (temperatures so far %r): tangent %r, %s %r (offset %g; stoichiometric precipitate)' % (ph, x, T, history, dd, meth, v2, off)))
     ctx.notes['backend_sampling_multi'] = stats
+    return hits
+
+
+SITE_IC = 'BinTherm.getInterfacialComposition'
+SITE_DF = 'Thermodynamics.getDrivingForce'
+
+
+def _relclose(a, b, rtol=1e-6, atol=1e-12):
+    a, b = np.atleast_1d(np.array(a, dtype=float)), np.atleast_1d(np.array(b, dtype=float))
+    return a.shape == b.shape and bool(np.all(np.abs(a - b) <= rtol * np.maximum(np.abs(a), np.abs(b)) + atol))
+
+
+def sample_conventions(ctx, quick, plan=None):
+    """The public thermodynamic entry points of the property, called the different ways their documentation allows, on long-lived
+    objects; every answer is compared with the plain scalar call for the same (T, g) / (x, T) and with the property text
+    (driving force at the returned composition = g to the offset, at the REQUESTED temperature).
+      conventions: Python / numpy scalar, 0-d array, list, tuple, int and float 1-d arrays; temperature as scalar, as array of
+                   equal entries, of well separated entries, of entries within 0.1 % of each other; precPhase omitted / keyword /
+                   positional; argument arrays unchanged afterwards and re-used for the next call (same answer again)
+      histories:   call, then a setter / cache operation / calls at other temperatures, then the same call again - against a
+                   fresh object in the final configuration
+      interleaved: two differently configured objects used alternately - each against itself alone"""
+    rng = ctx.rng if plan is None else np.random.Generator(np.random.PCG64(0))
+    hits = []
+    stats = {'ic_calls': 0, 'df_calls': 0, 'histories': 0, 'interleaved': 0}
+    for key, gmax, (Tlo, Thi) in ([('alzr', 12000., (600., 850.)), ('almg', 350., (430., 520.))] if plan is None else [plan['sys']]):
+        th = make_therm(key)
+        off = float(th.gOffset)
+        ph = th.phases[1]
+        T0 = float(np.round(rng.uniform(Tlo, Thi), 2)) if plan is None else plan['T0']
+        gs = np.sort(np.round(rng.uniform(0.05, 1, 4) * gmax, 1)) if plan is None else np.array(plan['g'], dtype=float)
+        case = {'sys': [key, gmax, [Tlo, Thi]], 'T0': T0, 'g': fl(gs)}
+        ctx.count({'conventions': case}, True)
+        ctx.hist('backend', 'conventions:' + key)
+
+        def ic(T, g, *a, **k):
+            stats['ic_calls'] += 1
+            with quiet():
+                xa, xb = th.getInterfacialComposition(T, g, *a, **k)
+            return np.atleast_1d(np.array(xa, dtype=float)), np.atleast_1d(np.array(xb, dtype=float))
+
+        def df(obj, x, T, *a, **k):
+            stats['df_calls'] += 1
+            with quiet():
+                d, xb = obj.getDrivingForce(x, T, *a, **k)
+            return np.atleast_1d(np.array(d, dtype=float))
+
+        def report(site, cls, what, msg):
+            hits.append(('calling_convention', site, cls, dict(case, what=what), '%s %s: %s' % (key, what, msg)))
+
+        # reference: one plain scalar call per (T, g)
+        def ref(T, g):
+            a, b = ic(float(T), float(g))
+            return float(a[0]), float(b[0])
+        # ---- interfacial composition: ways of passing g at one scalar temperature
+        ref0 = np.array([ref(T0, g)[0] for g in gs])
+        forms = [('list', [float(g) for g in gs]), ('tuple', tuple(float(g) for g in gs)), ('float64 array', np.array(gs, dtype=np.float64)),
+                 ('float32-exact int array', np.array(np.round(gs), dtype=np.int64))]
+        for nm, arg in forms:
+            exp = ref0 if 'int' not in nm else np.array([ref(T0, float(g))[0] for g in np.round(gs)])
+            keep = np.array(arg).copy() if isinstance(arg, np.ndarray) else None
+            a1, _ = ic(T0, arg)
+            if not _relclose(a1, exp):
+                report(SITE_IC, 'array vs scalar call', 'g as ' + nm, 'T=%g g=%r: %r, scalar calls give %r' % (T0, fl(gs), fl(a1), fl(exp)))
+            if keep is not None and not np.array_equal(keep, arg):
+                report(SITE_IC, 'argument modified', 'g as ' + nm, 'T=%g: the caller\'s g array %r was changed to %r by the call' % (T0, fl(keep), fl(arg)))
+            a2, _ = ic(T0, arg, precPhase=ph)                         # the same argument object again, precPhase as keyword
+            a3, _ = ic(T0, arg, ph)                                   # ... and positional
+            if not (_relclose(a2, a1) and _relclose(a3, a1)):
+                report(SITE_IC, 'repeat call differs', 'g as ' + nm + ', same argument object re-used',
+                       'T=%g g=%r: first call %r, second %r, third %r' % (T0, fl(gs), fl(a1), fl(a2), fl(a3)))
+        for nm, Tt, gg in [('numpy scalars', np.float64(T0), np.float64(gs[1])), ('0-d arrays', np.array(T0), np.array(gs[1])), ('int T', int(round(T0)), float(gs[1]))]:
+            tv, gv = float(Tt), float(gg)
+            exp = ref(tv, gv)[0]
+            a1, _ = ic(Tt, gg)
+            if not _relclose(a1, [exp]):
+                report(SITE_IC, 'array vs scalar call', nm, 'T=%r g=%r: %r, plain scalar call %r' % (tv, gv, fl(a1), exp))
+            if float(Tt) != tv or float(gg) != gv:
+                report(SITE_IC, 'argument modified', nm, 'T=%r g=%r: the argument objects hold %r, %r after the call' % (tv, gv, float(Tt), float(gg)))
+        # ---- (T array, g array): equal temperatures, well separated, and close together (within 0.1 % of the first)
+        for nm, Ts in [('equal temperatures', np.full(4, T0)), ('separated temperatures', T0 + np.array([0., 12., 25., -14.])),
+                       ('temperatures within 0.1 %', T0 + np.array([0., 0.15, 0.4, 0.6])), ('temperatures within 0.01 %', T0 + np.array([0., 0.02, 0.05, -0.04]))]:
+            Tk, gk = Ts.copy(), np.array(gs, dtype=float)
+            a1, b1 = ic(Ts, gk)
+            exp = np.array([ref(t, g)[0] for t, g in zip(Ts, gs)])
+            if not _relclose(a1, exp):
+                k = int(np.argmax(np.abs(a1 - exp) / np.maximum(np.abs(exp), 1e-300)))
+                report(SITE_IC, 'array vs scalar call', 'T array with ' + nm, 'T=%r g=%r: entry %d is %r, the scalar call at T=%r g=%r gives %r' % (fl(Ts), fl(gs), k, float(a1[k]), float(Ts[k]), float(gs[k]), float(exp[k])))
+            if not (np.array_equal(Tk, Ts) and np.array_equal(gk, np.array(gs, dtype=float))):
+                report(SITE_IC, 'argument modified', 'T array with ' + nm, 'an argument array was changed by the call')
+            # property text at the REQUESTED temperatures: driving force at the returned composition = g (to the offset)
+            okm = a1 != -1
+            if np.any(okm):
+                d = df(th, a1[okm], Ts[okm])
+                dev = d - gs[okm]
+                if np.any((dev < -0.05) | (dev > off + 0.05)):
+                    k = int(np.argmax((dev < -0.05) | (dev > off + 0.05)))
+                    hits.append(('backend_consistency', SITE_IC, 'driving force at x_alpha(g), T array', dict(case, what='T array with ' + nm),
+                                 '%s T=%r g=%r: composition returned for T=%r g=%r is %r, the driving force there (at that T) is %r (offset %g)' % (
+                                     key, fl(Ts), fl(gs), float(Ts[okm][k]), float(gs[okm][k]), float(a1[okm][k]), float(d[k]), off)))
+        # ---- the same g array through a temperature loop (table building): array unchanged, answers = scalar calls
+        garr = np.array(gs, dtype=np.float64)
+        for t in T0 + np.array([0., 7., 15., 0.]):
+            a1, _ = ic(float(t), garr)
+            exp = np.array([ref(t, g)[0] for g in gs])
+            if not _relclose(a1, exp) or not np.array_equal(garr, gs):
+                report(SITE_IC, 'repeat call differs', 'one g array re-used over a temperature loop',
+                       'T=%g: %r, scalar calls %r; the array now holds %r (was %r)' % (t, fl(a1), fl(exp), fl(garr), fl(gs)))
+                break
+        # ---- driving force: conventions
+        xs = ref0[ref0 > 0] * 1.5
+        if len(xs) >= 2:
+            exp = np.array([df(th, float(x), float(T0))[0] for x in xs])
+            for nm, xa_, Ta_ in [('lists', [float(x) for x in xs], [float(T0)] * len(xs)), ('arrays', np.array(xs), np.full(len(xs), T0)),
+                                 ('x array, scalar T', np.array(xs), T0), ('x array, int T', np.array(xs), None)]:
+                if Ta_ is None:
+                    Ta_ = int(round(T0))
+                    e2 = np.array([df(th, float(x), float(Ta_))[0] for x in xs])
+                else:
+                    e2 = exp
+                kx = np.array(xa_).copy() if isinstance(xa_, np.ndarray) else None
+                d1 = df(th, xa_, Ta_)
+                d2 = df(th, xa_, Ta_, precPhase=ph)
+                d3 = df(th, xa_, Ta_, ph, False)
+                if not (_relclose(d1, e2, 1e-6, 1e-4) and _relclose(d2, e2, 1e-6, 1e-4) and _relclose(d3, e2, 1e-6, 1e-4)):
+                    report(SITE_DF, 'array vs scalar call', nm, 'x=%r T=%r: %r / %r / %r, scalar calls %r' % (fl(xs), Ta_ if np.ndim(Ta_) == 0 else fl(Ta_), fl(d1), fl(d2), fl(d3), fl(e2)))
+                if kx is not None and not np.array_equal(kx, xa_):
+                    report(SITE_DF, 'argument modified', nm, 'the caller\'s x array was changed by the call')
+        # ---- histories on ONE object against a fresh object in the final configuration
+        for meth in ('tangent', 'sampling') if quick else ('tangent', 'approximate', 'sampling', 'curvature'):
+            stats['histories'] += 1
+            old_ = make_therm(key, 'curvature' if meth != 'curvature' else 'tangent')
+            xq = float(ref0[0] * 2) if ref0[0] > 0 else 1e-3
+            df(old_, xq, T0 + 40.)                                    # calls in the first configuration, other temperature
+            ich = old_.getInterfacialComposition(T0 + 40., float(gs[0]))
+            with quiet():
+                old_.setDrivingForceMethod(meth)                       # setter between the calls
+            d_hist = df(old_, [xq, xq * 0.2], [T0, T0])
+            with quiet():
+                ia_h, _ = old_.getInterfacialComposition(T0, np.array(gs))
+            fresh = make_therm(key, meth)
+            d_fresh = df(fresh, [xq, xq * 0.2], [T0, T0])
+            with quiet():
+                ia_f, _ = fresh.getInterfacialComposition(T0, np.array(gs))
+            if not _relclose(d_hist, d_fresh, 1e-6, 1e-3) or not _relclose(ia_h, ia_f):
+                hits.append(('calling_convention', SITE_DF, 'history on one object', dict(case, what='calls at T0+40, setDrivingForceMethod(%s), calls at T0' % meth),
+                             '%s: after calls at %g K and setDrivingForceMethod(%r): driving force %r, interfacial composition %r; a fresh object gives %r, %r' % (
+                                 key, T0 + 40., meth, fl(d_hist), fl(ia_h), fl(d_fresh), fl(ia_f))))
+    # ---- two differently configured objects alive at the same time, used alternately
+    if plan is None:
+        A, B = make_therm('alzr', 'sampling'), make_therm('almg', 'sampling')
+        A2, B2 = make_therm('alzr', 'sampling'), make_therm('almg', 'sampling')
+        with quiet():
+            B.setDFSamplingDensity(500)
+            B2.setDFSamplingDensity(500)
+        qa = [(4e-3, 700.), (2e-3, 760.), (4e-3, 700.)]
+        qb = [(0.16, 470.), (0.2, 500.), (0.16, 470.)]
+        ra, rb, sa, sb = [], [], [], []
+        with quiet():
+            for (xa_, Ta_), (xb_, Tb_) in zip(qa, qb):
+                ra.append(float(A.getDrivingForce(xa_, Ta_)[0]))
+                rb.append(float(B.getDrivingForce(xb_, Tb_)[0]))
+            for (xa_, Ta_) in qa:
+                sa.append(float(A2.getDrivingForce(xa_, Ta_)[0]))
+            for (xb_, Tb_) in qb:
+                sb.append(float(B2.getDrivingForce(xb_, Tb_)[0]))
+        stats['interleaved'] += 1
+        if not (_relclose(ra, sa, 1e-6, 1e-3) and _relclose(rb, sb, 1e-6, 1e-3)):
+            hits.append(('calling_convention', SITE_DF, 'two objects interleaved', {'queries': [qa, qb]},
+                         'Al-Zr and Al-Mg objects used alternately give %r / %r, each alone gives %r / %r' % (ra, rb, sa, sb)))
+    ctx.notes['calling_conventions'] = stats
     return hits
 
 
@@ -1455,6 +1638,7 @@ def report_unit(ctx, dis, hits):
 def run_traces(ctx, cfgs, label, sample_every):
     """runs + oracle on every step + trace refinement in Coq on sampled steps"""
     all_hits, terms, owners = [], [], []
+    finals = {}
     for cfg in cfgs:
         t0 = time.time()
         try:
@@ -1463,6 +1647,15 @@ def run_traces(ctx, cfgs, label, sample_every):
             all_hits.append((cfg, None, 'run', 'KWNBase.solve', 'exception', 'run raised %s: %s' % (type(e).__name__, e)))
             continue
         ctx.hist('runs', cfg['backend'])
+        finals[cfg['name']] = steps
+        tw = finals.get(cfg.get('twin_of'))
+        if tw is not None:
+            same = len(tw) == len(steps) and all(
+                a['x'] == b['x'] and all(da['Rc'] == db['Rc'] and np.array_equal(da['growth'], db['growth']) for da, db in zip(a['phases'], b['phases']))
+                for a, b in zip(tw[-3:], steps[-3:]))
+            if not same:
+                all_hits.append((cfg, len(steps), 'calling_convention', 'KWNBase (display names)', 'run differs from its twin',
+                                 'run %s (%d steps) differs from its twin %s (%d steps) although only the display names of the precipitates differ' % (cfg['name'], len(steps), cfg['twin_of'], len(tw))))
         nh = 0
         for rec in steps:
             nt = any(d['dGv'] > 0 and d['Rc'] > 0 and np.any(d['growth'] > 0) and np.any(d['growth'] < 0) for d in rec['phases'])
@@ -1576,6 +1769,7 @@ def run(ctx):
         hits_b += sample_backend(ctx, quick, {'system': inp['system'], 'Ts': inp['temperatures_queried_on_the_same_objects'], 'g': inp['g']})
     hits_b += sample_backend(ctx, quick)
     hits_b += sample_backend_multi(ctx, quick)
+    hits_b += sample_conventions(ctx, quick)
     tm['backend'] = round(time.time() - t0, 1)
     ctx.notes['phase_wall_s'] = tm
     print('C12 phases (s):', tm)
@@ -1642,7 +1836,9 @@ def replay(ctx, obj):
     elif kind == 'backend':
         inp = obj.get('input', {})
         plan = None
-        if inp.get('system') == 'Al-Mg-Si':
+        if 'sys' in inp:
+            hits = sample_conventions(ctx, True, {'sys': (inp['sys'][0], inp['sys'][1], tuple(inp['sys'][2])), 'T0': inp['T0'], 'g': inp['g']})
+        elif inp.get('system') == 'Al-Mg-Si':
             hits = sample_backend_multi(ctx, True, {'Ts': inp['temperatures_queried_on_the_same_objects'], 'x': inp['x'], 'phase': inp['phase']})
         else:
             if 'temperatures_queried_on_the_same_objects' in inp:
